@@ -161,6 +161,60 @@ def oracle(case, res, extra):
         res.samples.append({"qref": case.qref, "features": sorted(feats)})
 
 
+def section_counts(text):
+    """number of entries under each section header of an (unpaged) rendering"""
+    import re
+
+    body = text[len("$\\begin{align}\n"):-len("\n\\end{align}$")]
+    out = {}
+    for part in body.split("\\newline\n"):
+        m = re.match(r"&\\underline\{\\text\{(.*?):\}\}\\\\\n", part)
+        if not m:
+            continue
+        rest = part[m.end():]
+        hdr = m.group(1)
+        if hdr == "Input parameters":
+            out[hdr] = len(rest[1:].split(", ")) if rest.strip("&") else 0
+        else:
+            out[hdr] = len(rest.split("\\\\\n"))
+    return out
+
+
+def model_correspondence(ctx, seeds):
+    """entries per section: Lean `latexEntries` vs the real rendering of the source document"""
+    from bartiq.integrations.latex import routine_to_latex
+
+    from .. import model
+
+    reqs, metas = [], []
+    for seed in seeds:
+        spec = gen(seed, None)
+        case = pipeline.Case(seed, spec)
+        try:
+            doc = schema(case.qref)
+            sx = G.routine_sexp(doc.program, case.tree_of)
+        except Exception:
+            continue
+        for show in (True, False):
+            reqs.append(f"latex {1 if show else 0} {sx}")
+            metas.append((case, doc, show))
+    if not reqs:
+        return
+    resp = model.run_driver(reqs)
+    import collections
+
+    for (case, doc, show), r in zip(metas, resp):
+        ctx.stats["model_vs_impl_compared"] += 1
+        try:
+            text = routine_to_latex(doc, show_non_root_resources=show)
+        except Exception:
+            continue
+        real = section_counts(text)
+        mod = collections.Counter(e[0].replace("_", " ") for e in r[1])
+        if dict(mod) != real:
+            ctx.disagreement("routine_to_latex vs latexEntries (entries per section)", {"qref": case.qref, "show_non_root_resources": show}, dict(mod), real)
+
+
 def corpus(ctx):
     from bartiq.integrations.latex import routine_to_latex
 
@@ -185,6 +239,7 @@ def run(ctx, widen=False):
     corpus(ctx)
     base = ctx.seed * 1000003 + 14500000
     pipeline.run_stream(ctx, __name__, range(base, base + n), use_model=False)
+    model_correspondence(ctx, range(base, base + ctx.n(150, 2000)))
 
 
 def replay(payload):
